@@ -424,6 +424,32 @@ func (p *c15) Run(i int) (res fw.Result) {
 					res.Fail("numeric-string", "c15:ns:"+s, fmt.Sprintf("CoerceNumber(%q) = %v, the string spells %v", s, got, want), nil)
 				}
 			}
+			// the same digits carried by a decimal (whole numbers with exponent zero and coefficients beyond 64 bits,
+			// built from the string and from a big integer): the number of a decimal is the number its string spells
+			for _, s := range ds {
+				d, derr := decimal.NewFromString(s)
+				if derr != nil {
+					continue
+				}
+				carriers := []decimal.Decimal{d, d.Neg(), d.Add(decimal.NewFromInt(1)), d.Mul(decimal.NewFromInt(3))}
+				if d.Exponent() == 0 {
+					carriers = append(carriers, decimal.NewFromBigInt(d.Coefficient(), 0), decimal.NewFromBigInt(d.Coefficient(), 2), decimal.NewFromBigInt(d.Coefficient(), -3))
+				}
+				for ci, dc := range carriers {
+					dc := dc
+					str := stick.CoerceString(dc)
+					want, err := strconv.ParseFloat(str, 64)
+					res.Evals += 3
+					for wi, carrier := range []interface{}{dc, &dc, stick.NewSafeValue(dc, "html")} {
+						if got := stick.CoerceNumber(carrier); err != nil || got != want {
+							res.Fail("decimal-number", fmt.Sprintf("c15:decs:%s:%d:%d", s, ci, wi), fmt.Sprintf("CoerceNumber(%T of decimal %s) = %v; its string %q spells %v (%v)", carrier, dc.String(), got, str, want, err), nil)
+						}
+						if got, wantB := stick.CoerceBool(carrier), !dc.IsZero(); got != wantB && dc.IsPositive() {
+							res.Fail("decimal-number", fmt.Sprintf("c15:decb:%s:%d:%d", s, ci, wi), fmt.Sprintf("CoerceBool(%T of decimal %s) = %v", carrier, dc.String(), got), nil)
+						}
+					}
+				}
+			}
 		}
 		// a decimal is the number its digits spell: coefficients of few and of many digits at every scale from 10^-40 to
 		// 10^5 (the number of a decimal is the number of its string, whichever way the library gets there)
